@@ -312,15 +312,16 @@ calls the hypotheses of `setAst_inv` / `setField_inv` / `run_wf` actually held. 
 def boundedB (s : State) : Bool :=
   (ids s.root).all (fun x => match s.σ.astF x with | some g => decide (g < s.σ.next) | none => true)
 
-def wfB (s : State) : Bool := linkInvB s && decide (ids s.root).Nodup && boundedB s
+def wfB (s : State) : Bool := linkInvB s && decide (ids s.root).Nodup && boundedB s && s.root.fld.isNone
 
 /-- pairwise distinct ASTs, none of which has an FST -/
 def freshB (σ : Store) (l : List Nat) : Bool := decide l.Nodup && l.all (fun x => (σ.astF x).isNone)
 
 def admissibleB (s : State) : Op → Bool
-  | .setAst f new v u => !v && u && (match ((s.σ.fst f).a).bind (fun i => findId i s.root) with
-      | some old => (s.σ.astF old.id == some f) && (s.root.id != old.id) && freshB s.σ (ids new)
-      | none => false)
+  | .setAst f new v u => !v && u && freshB s.σ (ids new) && (f == s.rootF ||
+      (match ((s.σ.fst f).a).bind (fun i => findId i s.root) with
+       | some old => (s.σ.astF old.id == some f) && (s.root.id != old.id)
+       | none => false))
   | .setField f _ _ new v u => !v && u && (match ((s.σ.fst f).a).bind (fun i => findId i s.root) with
       | some P => (s.σ.astF P.id == some f) && freshB s.σ (idsList new)
       | none => false)
